@@ -17,6 +17,7 @@ from scipy.sparse.linalg import ArpackNoConvergence, eigsh
 import felupe as fem
 
 from .. import gen, refmodel, world
+from ..apicall import call as api
 from ..kernel import Discard, InjectedFault, SimSolverError, Streams, Violation, adigest, close_exact_twin, pick
 
 PROP = "C18"
@@ -240,7 +241,7 @@ def run(doc, log):
             try:
                 if op.get("x0"):
                     kw["x0"] = w.field
-                job.evaluate(solver=sim, **kw)
+                api("FreeVibration.evaluate", job.evaluate, doc["seed"] + k, solver=sim, **kw)
             except BaseException as e:
                 from ..kernel import origin
 
@@ -355,7 +356,7 @@ def run(doc, log):
             if not (-len(job.eigenvalues) <= n < len(job.eigenvalues)):
                 n = 0
             before = [f.values.copy() for f in w.field.fields]
-            field, freq = job.extract(n=n, inplace=op["inplace"], **({"x0": w.field} if op.get("x0") else {}))
+            field, freq = api("FreeVibration.extract", job.extract, doc["seed"] + k, n=n, inplace=op["inplace"], **({"x0": w.field} if op.get("x0") else {}))
             lam = job.eigenvalues[n]
             with np.errstate(invalid="ignore"):
                 want = np.sqrt(lam) / (2 * np.pi)
